@@ -179,3 +179,79 @@ def calls_to(ix, body, keys):
 
 def short(k):
     return mir.short(k)
+
+
+# ------------------------------------------------------------------------------- decision tables
+
+STD_VARIANTS = {"std::option::Option": ["None", "Some"], "std::result::Result": ["Ok", "Err"], "core::option::Option": ["None", "Some"]}
+
+
+def variant_names(ix, ty):
+    """Variant names by discriminant value for an enum type string."""
+    base = ty.lstrip("&").replace("mut ", "").strip()
+    head = base.split("<")[0]
+    if head in STD_VARIANTS:
+        return {i: n for i, n in enumerate(STD_VARIANTS[head])}
+    a = ix.adts.get(head)
+    if a and a["kind"] == "Enum":
+        out = {}
+        for i, v in enumerate(a["variants"]):
+            d = int(v["discr"]) if v["discr"] is not None else i
+            out[d] = v["name"]
+        return out
+    return None
+
+
+def discr_type_of_switch(body, bi):
+    """Type of the place whose discriminant a block switches on (None if not a discriminant switch)."""
+    t = body.blocks[bi].term
+    p = op_place(t["discr"])
+    if p is None or not mir.is_local(p):
+        return None
+    sd = body.single_def(p["l"])
+    if sd and sd[2].get("k") == "discr":
+        return sd[2]["p"]["ty"]
+    return None
+
+
+def constraints_for(ix, body, sym, block):
+    """Constraints that hold on every path reaching `block`: for each dominating switch of which only some
+    arms lead to the block: (text of the switched expression, frozenset of value names, switch block)."""
+    out = []
+    doms = body.dom().get(block) or set()
+    for d in sorted(doms):
+        if d == block or body.blocks[d].term["k"] != "switch":
+            continue
+        t = body.blocks[d].term
+        arms = [(a[0], a[1]) for a in t["arms"]] + [("otherwise", t["otherwise"])]
+        leading = []
+        for v, tgt in arms:
+            if block in body.reachable_from(tgt, removed={d}, include_start=True):
+                leading.append(v)
+        if len(leading) == len(arms):
+            continue
+        e = sym.operand(t["discr"])
+        neg = False
+        while isinstance(e, tuple) and e[0] == "un" and e[1] == "Not":
+            e = e[2]
+            neg = not neg
+        names = None
+        ty = discr_type_of_switch(body, d)
+        if ty:
+            names = variant_names(ix, ty)
+        vals = []
+        explicit = [a[0] for a in t["arms"]]
+        for v in leading:
+            if v == "otherwise":
+                if names:
+                    vals.extend(n for dv, n in names.items() if dv not in explicit)
+                elif t.get("discr_ty") == "bool":
+                    vals.extend(x for x in (0, 1) if x not in explicit)
+                else:
+                    vals.append("not{%s}" % ",".join(str(x) for x in explicit))
+            else:
+                vals.append(names.get(v, v) if names else v)
+        if t.get("discr_ty") == "bool":
+            vals = [bool(v) != neg if isinstance(v, int) else v for v in vals]
+        out.append((mir.expr_str(e), frozenset(vals), d, e))
+    return out
